@@ -1,5 +1,6 @@
 import ExaModel.Lemmas.SessionCheck
 import ExaModel.Lemmas.SessionSpec
+import ExaModel.Lemmas.SessionFrame
 import ExaModel.Generated.NotifyTable
 set_option linter.unusedSimpArgs false
 set_option linter.unusedVariables false
@@ -47,14 +48,18 @@ theorem none_after_received_notification (cfg : Cfg) (rib : Bool) (evs : List Ev
   rw [h] at hg
   exact accepted_dead hg (Or.inr rfl)
 
-/-- **C10, the right code (full).** A coroutine reading the connection in use in state `st`
-    which is handed a message `m` that ends the session per the RFCs (`causeOf st m = some cause`)
-    writes exactly one thing on that connection, a NOTIFICATION whose (code, subcode) is in
-    `errorClass cause st`, and closes it — in every state satisfying the invariant of the runs.
-    (Until /repo 8ee2e7e an OPEN in ESTABLISHED was the exception, finding F31.) -/
+/-- **C10, the right code (full for sessions ended by what was received).** A coroutine reading
+    the connection in use in state `st` which is handed a message `m` that ends the session per
+    the RFCs (`causeOf st m = some cause`) writes exactly one thing on that connection, a
+    NOTIFICATION whose (code, subcode) is in `errorClass cause st`, and closes it — in every state
+    satisfying the invariant of the runs.  (Until /repo 8ee2e7e an OPEN in ESTABLISHED was the
+    exception, finding F31.)  Hypothesis `hapi`: handing `m` to the API process did not fail.
+    When it does (`api receive { parsed; … }` configured and the API process gone) the code raises
+    `ProcessError` before it looks at the message and the session is ended by THAT, a local
+    failure the property does not speak about (`api_failure_writes_nothing` says what happens). -/
 theorem code_is_class (s : State) (hinv : Inv s) (c : Nat) (k : Conn)
     (haw : awaited s = some c) (hc : s.conn = some k) (hk : k.id = c) (hr : k.rst = false)
-    (m : Msg) (cause : Cause) (hcause : causeOf s.fsm m = some cause) :
+    (m : Msg) (cause : Cause) (hcause : causeOf s.fsm m = some cause) (hapi : apiFails m s = false) :
     ∃ code sub, sendsOn c (deliver m s).2 = [.notification code sub] ∧ (code, sub) ∈ errorClass cause s.fsm ∧
       Out.close c ∈ (deliver m s).2 ∧ (deliver m s).1.conn = none := by
   have hst : isReading s.fsm = true := by
@@ -72,7 +77,7 @@ theorem code_is_class (s : State) (hinv : Inv s) (c : Nat) (k : Conn)
     | done => simp [awaited, hp] at haw
     | passiveWait => simp [awaited, hp] at haw
     | connecting => simp [awaited, hp] at haw
-  rw [deliver_eq_onNotify m s hinv c k haw hc hk cause hcause]
+  rw [deliver_eq_onNotify m s hinv c k haw hc hk cause hcause hapi]
   obtain ⟨h1, h2, h3⟩ := onNotify_sends (modelCode s.fsm m).1 (modelCode s.fsm m).2 s k hc hr
   subst hk
   exact ⟨_, _, h1, modelCode_in_class s.fsm m cause hst hcause, h2, h3⟩
@@ -81,11 +86,30 @@ theorem code_is_class (s : State) (hinv : Inv s) (c : Nat) (k : Conn)
 theorem code_is_class_run (cfg : Cfg) (rib : Bool) (evs : List Event) (c : Nat) (k : Conn)
     (haw : awaited (run (init cfg rib) evs).1 = some c) (hc : (run (init cfg rib) evs).1.conn = some k)
     (hk : k.id = c) (hr : k.rst = false) (m : Msg) (cause : Cause)
-    (hcause : causeOf (run (init cfg rib) evs).1.fsm m = some cause) :
+    (hcause : causeOf (run (init cfg rib) evs).1.fsm m = some cause)
+    (hapi : apiFails m (run (init cfg rib) evs).1 = false) :
     ∃ code sub, sendsOn c (deliver m (run (init cfg rib) evs).1).2 = [.notification code sub] ∧
       (code, sub) ∈ errorClass cause (run (init cfg rib) evs).1.fsm ∧
       Out.close c ∈ (deliver m (run (init cfg rib) evs).1).2 ∧ (deliver m (run (init cfg rib) evs).1).1.conn = none :=
-  code_is_class _ (run_inv evs _ (inv_init cfg rib)) c k haw hc hk hr m cause hcause
+  code_is_class _ (run_inv evs _ (inv_init cfg rib)) c k haw hc hk hr m cause hcause hapi
+
+/-- the API process is gone and received messages are forwarded to it: whatever was read, `_run`
+    ends in `except ProcessError` — nothing at all is written on the connection (so in particular
+    no second NOTIFICATION and no reply to one) and it is closed. -/
+theorem api_failure_writes_nothing (s : State) (k : Conn) (hc : s.conn = some k) (m : Msg)
+    (hapi : apiFails m s = true) :
+    sendsOn k.id (deliver m s).2 = [] ∧ Out.close k.id ∈ (deliver m s).2 ∧ (deliver m s).1.conn = none :=
+  deliver_process_error m s k hc hapi
+
+/-- `hapi` holds of every run in which the API process stays alive, and of every configuration
+    that does not forward received messages. -/
+theorem api_alive_of_no_death (cfg : Cfg) (rib : Bool) (evs : List Event) (m : Msg)
+    (h : Event.apiDies ∉ evs ∨ cfg.forward = false) : apiFails m (run (init cfg rib) evs).1 = false := by
+  obtain ⟨hcfg, hdead⟩ := run_fr evs (init cfg rib)
+  unfold apiFails
+  rcases h with h | h
+  · rw [hdead h]; simp [init]
+  · rw [hcfg]; simp [init, h]
 
 /-- F31 repaired (/repo 8ee2e7e): an OPEN read in ESTABLISHED is answered 5/3 and the session closed. -/
 example :
@@ -111,9 +135,12 @@ theorem f30_witness :
        .send 2 (.notification 5 1) .idle, .fsm .idle .idle, .close 2] := by
   decide
 
-/-- F18 (C12): in OPENCONFIRM there is no hold timer — silence changes nothing. -/
-theorem f18_no_hold_timer_in_openconfirm :
-    (step (run (init plain false) [.start, .connectOk, .recv 1 (.openOk false)]).1 .holdExpired).2 = [] := by
+/-- F18 / F89 repaired (/repo 5dabac1): the hold timer runs in OPENCONFIRM too — silence after the
+    peer's OPEN ends the attempt with 4/0, which is what `errorClass` asks for. -/
+theorem hold_timer_in_openconfirm :
+    (step (run (init plain false) [.start, .connectOk, .recv 1 (.openOk false)]).1 .holdExpired).2 =
+      [.send 1 (.notification 4 0) .openconfirm, .down, .fsm .openconfirm .idle, .close 1] ∧
+    (4, 0) ∈ errorClass .holdTimer .openconfirm := by
   decide
 
 /-- hold timer and cease: the codes the model raises are the RFC ones. -/
